@@ -31,7 +31,7 @@ func init() {
 		ID:    "C11",
 		Level: "exploration",
 		Rule: "cases = 4..14 records (seeded expiry: none / past / future, 2 groups, 3 states) x 2..4 clients x <=5 operations each: ShiftExpired, ShiftMatching (key/creation/expiration index, asc/desc, state and group filters in both leg orders, expired-only window, HowMany, MaxResults), PatchExpired (filters, HowMany, 1h lease, sets state and a unique owner) racing explicit-key patches of the filtered field, expiry slides, deletes and new records (40% of the cases have claimers only); seeded preemption + stalls; " +
-			"oracle: per reply count <= HowMany/MaxResults, no key twice, returned record satisfies expiry / filters / window as returned, index order among untouched keys; across replies no record removed twice (shift, shift, delete), two patch-claims of one record only around a re-expiring change, nothing claimed after its acknowledged delete; final state (before and after restart) has no removed record and every other one; claimers-only cases: nothing eligible is skipped and nothing younger is taken while an older eligible record stays unclaimed; " +
+			"oracle: per reply count <= HowMany/MaxResults, no key twice, returned record satisfies expiry / filters / window as returned, index order among untouched keys; across replies no record removed twice (shift, shift, delete), two patch-claims of one record only around a re-expiring change, a record both patch-claimed and shifted was shifted as patched, nothing claimed after its acknowledged delete; final state (before and after restart) has no removed record and every other one; claimers-only cases: nothing eligible is skipped and nothing younger is taken while an older eligible record stays unclaimed; " +
 			"non-trivial = two claims overlapped in time and something was claimed; distinct = hash of the context-switch trace",
 		Gen: func(seed uint64, tier string) Case { return genC11(seed, tier, "C11") },
 		Run: runC11,
@@ -1002,6 +1002,34 @@ func runC11(t *testing.T, c Case) (res Result) {
 		for _, g := range o.got {
 			if p := removedBy[g.key]; p != nil && g.status == hydrapb.PatchResult_PATCHED && p.ret < o.call {
 				return fail(violation("removed_record_claimed", "PatchExpired [%d,%d] patched %s, which %s had removed before [%d,%d]", o.call, o.ret, g.key, p.kind, p.call, p.ret))
+			}
+		}
+	}
+	// a record that a PatchExpired claimed (PATCHED) and that a shift handed out as well went to the shift after the
+	// patch - the only order in which both can have happened - so the copy the shift returned shows a claimer's patch
+	for _, o := range ops {
+		if o.kind != "patchexp" {
+			continue
+		}
+		for _, g := range o.got {
+			p := removedBy[g.key]
+			if g.status != hydrapb.PatchResult_PATCHED || p == nil || p.kind == "del" || unjudged[g.key] {
+				continue
+			}
+			owners := map[int64]bool{}
+			for _, q := range ops {
+				if q.kind == "patchexp" {
+					for _, gq := range q.got {
+						if gq.key == g.key && gq.status == hydrapb.PatchResult_PATCHED {
+							owners[q.id] = true
+						}
+					}
+				}
+			}
+			for _, gs := range p.got {
+				if gs.key == g.key && !owners[gs.body.Owner] {
+					return fail(violation("record_handed_out_twice", "record %s was claimed by PatchExpired [%d,%d] (PATCHED, owner %d, lease 1h) and handed out by %s [%d,%d] as it was before any claim (owner %d, state %s): two claimants hold the same record", g.key, o.call, o.ret, o.id, p.kind, p.call, p.ret, gs.body.Owner, gs.body.State))
+				}
 			}
 		}
 	}
